@@ -1,6 +1,6 @@
 """C15 -- extraction from a SPARQL endpoint equals extraction from the same graph locally.
 
-Theorems: Props/C15.v (C15_triples, C15_cache_same_result, C15_cache_log,
+Theorems: Props/C15.v (C15_triples, C15_cache_same_result, C15_cache_log_partial,
 C15_equals_local_partial; *_refuted witnesses for the known findings).
 
 The endpoint is an in-process fake: ``shexer.io.sparql.query._query_endpoint_json_result``
@@ -878,7 +878,7 @@ def run(tier, seed, replay=None):
                           failing_input=False)
         elif not proofs_ok:
             run.violation("proof obligations of C15 no longer check",
-                          {"broken": "theorems of Props/C15.v (C15_triples, C15_cache_same_result, C15_cache_log, "
+                          {"broken": "theorems of Props/C15.v (C15_triples, C15_cache_same_result, C15_cache_log_partial, "
                                      "C15_equals_local_partial, refuted witnesses)",
                            "log": run.notes[-1] if run.notes else ""}, failing_input=False)
 
